@@ -2350,12 +2350,18 @@ static void add_probes(enum target t) {
 }
 
 /* ================================================================== the dedicated deep-recursion probe */
-static int deep_probe_child(uint8_t opener, size_t depth) {
+static int deep_probe_child(uint8_t opener, int key_byte, size_t depth) {
     /* returns 0 = survived, otherwise the terminating signal of the child */
-    size_t n = depth + 1;
+    size_t per = key_byte >= 0 ? 2 : 1;
+    size_t n = depth * per + 1;
     uint8_t *buf = malloc(n);
-    memset(buf, opener, depth);
-    buf[depth] = 0x00;
+    for (size_t i = 0; i < depth; ++i) {
+        buf[i * per] = opener;
+        if (key_byte >= 0) {
+            buf[i * per + 1] = (uint8_t)key_byte; /* map key, the nested map is the value */
+        }
+    }
+    buf[n - 1] = 0x00;
     fflush(NULL);
     pid_t pid = fork();
     if (pid < 0) {
@@ -2387,14 +2393,15 @@ static void run_deep_case(void) {
     static const struct {
         const char *name;
         uint8_t open;
-    } shapes[] = {{"tags(0xC0)", 0xC0}, {"one-element arrays(0x81)", 0x81}};
-    char report[512];
+        int key;
+    } shapes[] = {{"tags(0xC0)", 0xC0, -1}, {"one-element arrays(0x81)", 0x81, -1}, {"one-pair maps(0xA1 0x00)", 0xA1, 0x00}};
+    char report[768];
     size_t o = 0;
     bool died = false;
     s_cur = T_CBOR_WHOLE;
-    for (unsigned s = 0; s < 2; ++s) {
+    for (unsigned s = 0; s < 3; ++s) {
         for (unsigned k = 0; k < 2; ++k) {
-            int sig = deep_probe_child(shapes[s].open, depths[k]);
+            int sig = deep_probe_child(shapes[s].open, shapes[s].key, depths[k]);
             mon_fp(depths[k] * 2 + s);
             o += (size_t)snprintf(report + o, sizeof(report) - o, "%s x %zu + 0x00: %s; ", shapes[s].name, depths[k],
                                   sig ? "process killed by signal" : "ok");
